@@ -231,7 +231,7 @@ pub fn property(_ctx: &Ctx) -> Property {
             "fill part: only pixel centres farther than 1.5 px from the f64 outline and with a uniform 3x3 neighbourhood are judged (contains_point flattens at its own tolerance)",
             "after close the cursor is the subpath's starting point (as in filling, C08/C16)",
         ],
-        parts: vec![part("lattice", 4_000, 300_000, lattice_strategy, check_lattice), part("fill", 3_000, 150_000, fill_strategy, check_fill)],
+        parts: vec![part("lattice", 16_000, 400_000, lattice_strategy, check_lattice), part("fill", 10_000, 200_000, fill_strategy, check_fill)],
         min_class_fraction: vec![("lattice", "line-after-close", 0.05), ("lattice", "horizontal-edge", 0.2), ("fill", "curves", 0.4)],
         panic_is_violation: false,
     }
